@@ -39,7 +39,7 @@ func NewSlogHandler(logger Logger, config *HandlerOptions) logslog.Handler {
 		logger.SetLevel(config.Level)
 	}
 
-	return &handler4LogSlog{logger.SetColorMode(!config.NoColor).SetJSONMode(config.JSON)}
+	return &handler4LogSlog{Logger: logger.SetColorMode(!config.NoColor).SetJSONMode(config.JSON)}
 }
 
 // HandlerOptions is used for our log/slog Handler.
@@ -56,6 +56,7 @@ type HandlerOptions struct {
 
 type handler4LogSlog struct {
 	Logger
+	fields Attrs // given by WithAttrs/WithGroup, printed with every record
 }
 
 func convertLevelToLogSlog(lvl Level) logslog.Level {
@@ -72,8 +73,9 @@ func convertLogSlogLevel(lvl logslog.Level) Level {
 	return AlwaysLevel
 }
 
-func convertLogSlogRecordAttrs(rec logslog.Record) Attrs {
-	fields := make([]Attr, 0, rec.NumAttrs())
+func convertLogSlogRecordAttrs(rec logslog.Record, pre Attrs) Attrs {
+	fields := make([]Attr, 0, len(pre)+rec.NumAttrs())
+	fields = append(fields, pre...)
 	rec.Attrs(func(attr logslog.Attr) bool {
 		fields = append(fields, convertAttrToField(attr))
 		return true
@@ -93,7 +95,7 @@ func (s *handler4LogSlog) Enabled(ctx context.Context, lvl logslog.Level) bool {
 func (s *handler4LogSlog) Handle(ctx context.Context, rec logslog.Record) error {
 	lvl := convertLogSlogLevel(rec.Level)
 	if wi, ok := s.Logger.(LogSlogAware); ok {
-		fields := convertLogSlogRecordAttrs(rec)
+		fields := convertLogSlogRecordAttrs(rec, s.fields)
 
 		// rec.PC would be abandoned because we want skip the extra frames
 		ei := 0
@@ -106,7 +108,7 @@ func (s *handler4LogSlog) Handle(ctx context.Context, rec logslog.Record) error 
 
 		wi.WriteThru(ctx, lvl, rec.Time, rec.PC, rec.Message, fields)
 	} else {
-		fields := convertLogSlogRecordAttrs(rec)
+		fields := convertLogSlogRecordAttrs(rec, s.fields)
 		s.LogAttrs(ctx, lvl, rec.Message, fields)
 	}
 	return nil
@@ -130,8 +132,10 @@ func (s *handler4LogSlog) WithGroup(name string) logslog.Handler {
 
 // withFields returns a cloned Handler with the given fields.
 func (s *handler4LogSlog) withFields(fields ...Attr) *handler4LogSlog {
+	// keep the logger (so destination, format and level) and add the fields
 	cloned := &handler4LogSlog{
-		New().SetAttrs(fields...),
+		Logger: s.Logger,
+		fields: append(append(Attrs(nil), s.fields...), fields...),
 	}
 	return cloned
 }
